@@ -48,6 +48,12 @@ RULE = ('kinds: FileStorage with blob_dir; BlobStorage proxy over '
         'ended transaction may remain in the blob temp directory; '
         'non-trivial = >= 2 committed blob revisions or >= 1 failed/aborted '
         'blob transaction; distinct = op trace')
+RULE += ('  '
+         'Later additions: a record-transforming wrapper (HexStorage) '
+         'around the blob file storage; blobs that become garbage '
+         '(unlink) and are packed away; an undo of a blob change that '
+         'is not the current one must be refused (decided from the '
+         'blob bytes). ')
 BUDGET = {'quick': {'runs': 1600, 'wall': 300, 'chunk': 10},
           'thorough': {'runs': 50000, 'wall': 1800, 'chunk': 20}}
 ASSUMPTIONS = [
